@@ -458,7 +458,9 @@ fn expect_field(ctx: &mut Ctx, b: &[u8], key: u64, want: &[Vec<u8>], name: &str,
 // ---------------------------------------------------------------------------------------------
 // asset bundles and the builder's mint field
 
-const NAMES: [&[u8]; 4] = [b"b", b"aa", b"", b"B"];
+// lengths 1, 2, 0, 1 and - where the CBOR head of the name changes width - 23, 24, 25 and 32 bytes,
+// chosen so that the longer name is bytewise smaller than the shorter one
+const NAMES: [&[u8]; 8] = [b"b", b"aa", b"", b"B", &[0x04; 23], &[0x03; 24], &[0x02; 25], &[0x01; 32]];
 
 fn policy_scripts() -> Vec<NativeScript> {
     vec![native_pubkey(2), native_pubkey(0), native_pubkey(1)]
@@ -585,7 +587,12 @@ fn sc_assets(ctx: &mut Ctx, max_len: usize) {
                     let inner: Vec<(usize, usize)> = hist.iter().enumerate().filter(|(_, h)| h.0 == *p).map(|(k, h)| (k, h.1)).collect();
                     b.push(0xa0 | inner.len() as u8);
                     for (k, a) in inner {
-                        b.push(0x40 | NAMES[a].len() as u8);
+                        if NAMES[a].len() < 24 {
+                            b.push(0x40 | NAMES[a].len() as u8);
+                        } else {
+                            b.push(0x58);
+                            b.push(NAMES[a].len() as u8);
+                        }
                         b.extend_from_slice(NAMES[a]);
                         b.push(qty(k) as u8);
                     }
@@ -726,7 +733,7 @@ pub fn scenario(name: &str, tier: Tier) -> Option<BoxedScenario> {
 
 pub fn run(tier: Tier, seed: u64) -> i32 {
     let mut rep = Report::new(P, tier, seed);
-    rep.rule = "sets: every insertion history (with repeats) of length <= L over 4 elements into TransactionInputs, Ed25519KeyHashes, Credentials, Certificates, VotingProposals, Vkeywitnesses, BootstrapWitnesses x arrival path {add, bytes tagged/untagged x definite/indefinite, JSON, decode-a-prefix-then-add at every split, inside a transaction body (fields 0, 13, 18, 14, 4, 20) or witness set (fields 0, 2)}; oracle: emitted items (cut out of the bytes by refcbor) == history with later repeats dropped, also after JSON and bytes round trips, len/get agree, add's return value == 'was new'. witness_setters: every history of <= L over 4 native scripts, 4 Plutus scripts (same bytes under two languages) and 5 datums (same value constructed / decoded / decoded non-canonical) through the typed setters; oracle: each emitted once, first-insertion order, identity = emitted bytes. asset_maps: every sequence of <= L insertions over 3 policies x 4 names (lengths 0,1,1,2) through 8 paths (MultiAsset::set_asset, Assets+MultiAsset::insert, Value, decode from unsorted bytes / JSON, builder add_mint_asset, MintBuilder, set_mint); oracle: key order canonical (length first, then bytewise) at both levels and content == last-write / sum model. builder: BFS over builder histories, each end state built 12 times under 4 hash seeds and on a clone; byte-identical, and no set-typed field of the built transaction repeats an element, every value and the mint canonical.".into();
+    rep.rule = "sets: every insertion history (with repeats) of length <= L over 4 elements into TransactionInputs, Ed25519KeyHashes, Credentials, Certificates, VotingProposals, Vkeywitnesses, BootstrapWitnesses x arrival path {add, bytes tagged/untagged x definite/indefinite, JSON, decode-a-prefix-then-add at every split, inside a transaction body (fields 0, 13, 18, 14, 4, 20) or witness set (fields 0, 2)}; oracle: emitted items (cut out of the bytes by refcbor) == history with later repeats dropped, also after JSON and bytes round trips, len/get agree, add's return value == 'was new'. witness_setters: every history of <= L over 4 native scripts, 4 Plutus scripts (same bytes under two languages) and 5 datums (same value constructed / decoded / decoded non-canonical) through the typed setters; oracle: each emitted once, first-insertion order, identity = emitted bytes. asset_maps: every sequence of <= L insertions over 3 policies x 8 names (lengths 0,1,1,2,23,24,25,32, longer names bytewise smaller) through 8 paths (MultiAsset::set_asset, Assets+MultiAsset::insert, Value, decode from unsorted bytes / JSON, builder add_mint_asset, MintBuilder, set_mint); oracle: key order canonical (length first, then bytewise) at both levels and content == last-write / sum model. builder: BFS over builder histories, each end state built 12 times under 4 hash seeds and on a clone; byte-identical, and no set-typed field of the built transaction repeats an element, every value and the mint canonical.".into();
     rep.assume("element identity is the element's serialized bytes (for Plutus scripts: language + bytes): two datums of equal value but different encodings hash differently and are distinct elements");
     rep.assume("a decoder that rejects an input that repeats an element also satisfies the property (nothing is held); a decoder that rejects a duplicate-free input does not");
     rep.trusted_base = vec!["harness/src/refcbor.rs".into(), "RFC 8949 §4.2.3 length-first map key order (notes/ledger_rules.md §8)".into()];
